@@ -332,5 +332,5 @@ def _worker(ctx, arg):
 
 
 def run(ctx):
-    per = 80 if ctx.tier == "quick" else 900
+    per = 350 if ctx.tier == "quick" else 3000
     ctx.parallel(_worker, [(k, per) for k in range(core.NPROC)])
